@@ -52,6 +52,13 @@ def iter_loop_header(b, tm, h):
         return None
     none_t = [tg for v, tg in st["targets"] if v == 0]
     some_t = [tg for v, tg in st["targets"] if v == 1]
+    # `while let Some(..) = it.next()` tests only one variant: the other one is the otherwise edge
+    explicit = {tg for _, tg in st["targets"]}
+    other = [d for d in b.succ(nb) if d not in explicit]
+    if not none_t and some_t:
+        none_t = other
+    elif not some_t and none_t:
+        some_t = other
     return (tm.call_term(h), nb, none_t, some_t)
 
 
